@@ -45,6 +45,17 @@ fn check(ctx: &mut Ctx, ty: &str, vals: &[u64], got: Result<Version, crate::obse
     }
     if arity == 4 && got.pre_release != vec![Identifier::Numeric(vals[3])] {
         ctx.violation(&format!("{}/{}/prerelease", ty, arity), w, format!("pre_release = {:?}", got.pre_release));
+        return;
+    }
+    // "prints as that string" whatever format specification the caller uses (a sample of the
+    // tuples: the specification, not the value, is the dimension here)
+    if vals.iter().sum::<u64>() % 7 == 0 || vals.iter().any(|v| *v > 9) {
+        ctx.eval(1);
+        match guarded(|| crate::observe::fmt_spec_mismatch(&got)) {
+            Ok(Some(m)) => ctx.violation(&format!("{}/{}/display-under-format-spec", ty, arity), w, m),
+            Ok(None) => {}
+            Err(p) => ctx.violation(&format!("{}/{}/display-panic", ty, arity), w, p.message),
+        }
     }
 }
 
